@@ -561,10 +561,13 @@ def limit_class(limit, n):
     return {None: "None", 0: "0", 1: "1"}.get(limit, "n" if limit == n else ("n+1" if limit == n + 1 else str(limit)))
 
 
-def judge_ds(pool, seq, ds, mazes, tname, tok, limit, join, ex, res):
+def judge_ds(pool, seq, ds, mazes, tname, tok, limit, join, ex, res, after=None):
     res.ev()
     base = dict(kind="ds", pool=pool, seq=list(seq), tok=tname, limit=limit, join=join, answers=ex.answers)
     key = f"C07|dataset|{tokfam(tname)}|limit={limit_class(limit, len(seq))}|join={join}"
+    if after is not None:
+        base["after"] = list(after)
+        key += f"|after_call_with_limit={limit_class(after[0], len(seq))}"
     where = f"MazeDataset(pool {pool}, mazes {list(seq)}).as_tokens({tname}, limit={limit}, join_tokens_individual_maze={join}) [answers {ex.answers}]"
     if ex.exc is not None:
         res.fail(f"{key}|raises-{type(ex.exc).__name__}", f"{where} raised {type(ex.exc).__name__}: {str(ex.exc)[:300]}", base)
@@ -613,6 +616,18 @@ def ds_task(t, res):
                         else:
                             cb(explore.run_with([], fn))
                             res.count("dataset_executions")
+            # two calls on one fresh dataset object, every ordered pair of (limit, join): the second answer must not depend on the first
+            if len(seq) >= 2 and t["answers"] != "dev1":
+                calls = [(l, j) for l in (0, 1, None, len(seq)) for j in (False, True)]
+                for tname in TOKSETS[t["toks"]][:2]:
+                    for (l1, j1) in calls:
+                        for (l2, j2) in calls:
+                            ds2, mazes2, n2 = ds_build(t["pool"], seq)
+                            tok = make_tok(tname, n2)
+                            explore.run_with([], lambda: ds2.as_tokens(tok, l1, j1))
+                            ex = explore.run_with([], lambda: ds2.as_tokens(tok, l2, j2))
+                            judge_ds(t["pool"], seq, ds2, mazes2, tname, tok, l2, j2, ex, res, after=(l1, j1))
+                            res.count("dataset_call_pairs")
 
 
 # ------------------------------------------------------------------ plan
@@ -793,5 +808,7 @@ def replay(d, res):
         with owned_rng():
             ds, mazes, n = ds_build(d["pool"], d["seq"])
             tok = make_tok(d["tok"], n)
+            if d.get("after") is not None:
+                explore.run_with([], lambda: ds.as_tokens(tok, d["after"][0], d["after"][1]))
             ex = explore.run_with(d["answers"], lambda: ds.as_tokens(tok, d["limit"], d["join"]))
-            judge_ds(d["pool"], d["seq"], ds, mazes, d["tok"], tok, d["limit"], d["join"], ex, res)
+            judge_ds(d["pool"], d["seq"], ds, mazes, d["tok"], tok, d["limit"], d["join"], ex, res, after=d.get("after"))
